@@ -161,7 +161,7 @@ PROPS = {
                       'preselection is proved to rate every band against that band\'s own gain / power / tilt targets and the library\'s '
                       'extended-gain allowance (the rating function opaque); dual-stage entries take the output stage\'s p_max',
         'trusted': ['edfa_nf as a pure function of (gain, model)'],
-        'extra': [],
+        'extra': [{'name': 'amp_selection', 'kind': 'bounded', 'script': 'bounded/amp_selection.py', 'timeout': 1800}],
     },
     'C02': {
         'level': 'proof',
